@@ -47,8 +47,13 @@ Modify(m) == /\ AllIdle /\ src.ver < MaxVer /\ m \in 0..now
              /\ UNCHANGED <<now, mod, tmp, pc, loc>>
 Tick == /\ AllIdle /\ now < MaxNow /\ now' = now + 1 /\ last' = [ev |-> "tick"] /\ UNCHANGED <<src, mod, tmp, pc, loc>>
 DeleteMod == /\ AllIdle /\ mod.st # "absent" /\ mod' = NoMod /\ last' = [ev |-> "delmod"] /\ UNCHANGED <<now, src, tmp, pc, loc>>
-OldGen == /\ AllIdle /\ mod.st = "complete" /\ mod.magic = Magic /\ mod' = [mod EXCEPT !.magic = Magic - 1]
-          /\ last' = [ev |-> "oldgen"] /\ UNCHANGED <<now, src, tmp, pc, loc>>
+\* the module file is replaced by one written by another generator version -- an older one (newer = FALSE) or
+\* a newer one (a module directory shared between two installations, or a downgrade)
+OtherGen(newer) ==
+          /\ AllIdle /\ mod.st = "complete" /\ mod.magic = Magic
+          /\ mod' = [mod EXCEPT !.magic = IF newer THEN Magic + 1 ELSE Magic - 1]
+          /\ last' = [ev |-> "oldgen", newer |-> newer] /\ UNCHANGED <<now, src, tmp, pc, loc>>
+OldGen == OtherGen(FALSE) \/ OtherGen(TRUE)
 
 (* ---- one construction by process p *)
 Go(p, p2, l2, ev) == /\ pc' = [pc EXCEPT ![p] = p2] /\ loc' = [loc EXCEPT ![p] = l2] /\ last' = ev @@ [p |-> p]
